@@ -35,6 +35,10 @@ class Unsupported(Exception):
     pass
 
 
+# functions that are MODELLED by a hand-written primitive of Model/Py.lean instead of being translated (floating-point
+# square root): name -> (parameter types, result type, Lean name)
+PRIMITIVE_FUNCS = {"_full_matrix_size": (["int"], "int", "Py.fullMatrixSize")}
+
 ATTRS = {"admmargs": {"window_size": "int", "num_data_series": "int", "rho": "scalar", "sparsity_weight": "lam"}}
 
 
@@ -94,6 +98,16 @@ SPECS = [
          params={"data": "arr2", "window_size": "int"}, ret="arr2", scalar=True),
     dict(file="data_preparation.py", func="stack_training_data_multiple_series",
          params={"all_series": ("list", "arr2"), "window_size": "int"}, ret="arr2", scalar=True),
+    dict(file="matrix_compression.py", func="_upper_triangle_indices",
+         params={"size": "int"}, ret=("tuple", ("list", "int"), ("list", "int"))),
+    dict(file="matrix_compression.py", func="_uncompress_upper_triangle",
+         params={"compressed_tri": "arr1"}, ret="arr2", scalar=True),
+    dict(file="matrix_compression.py", func="_upper_to_full",
+         params={"upper_tri": "arr2"}, ret="arr2", scalar=True),
+    dict(file="matrix_compression.py", func="compress_matrix",
+         params={"full_matrix": "arr2"}, ret="arr1", scalar=True),
+    dict(file="matrix_compression.py", func="reinflate_matrix",
+         params={"compressed_utri": "arr1"}, ret="arr2", scalar=True),
     dict(file="admm/unique_values.py", func="_size_including_this_row",
          params={"r": "int", "uncompressed_size": "int"}, ret="rat"),
     dict(file="admm/unique_values.py", func="_elements_in_row_after_target",
@@ -290,6 +304,8 @@ class FuncTranslator:
                 s0, t0 = self.expr(e.value)
                 if t0 == "arr1":
                     return s0, t0               # transposing a 1-d array is the identity
+                if t0 == "arr2":
+                    return f"(Py.Arr2.transpose {s0})", "arr2"
                 raise Unsupported("transpose of " + str(t0))
             if e.attr == "shape":
                 s, t = self.expr(e.value)
@@ -347,6 +363,10 @@ class FuncTranslator:
             raise Unsupported(f"matmul of {lt}, {rt}")
         if op is ast.Sub and lt == "arr1" and rt == "arr1":
             return f"(Py.Arr1.sub {l} {r})", "arr1"
+        if op is ast.Add and lt == "arr2" and rt == "arr2":
+            return f"(Py.Arr2.add {l} {r})", "arr2"
+        if op is ast.Sub and lt == "arr2" and rt == "arr2":
+            return f"(Py.Arr2.sub {l} {r})", "arr2"
         islist = lambda t: isinstance(t, tuple) and t[0] == "list"
         if op is ast.Add:
             if islist(lt) and islist(rt):
@@ -417,6 +437,8 @@ class FuncTranslator:
             s0, t0 = self.expr(e.value.value)
             if t0 in ("arr2", "arr2int"):
                 return f"(Py.Arr2.shape{sl.value} {s0})", "int"
+            if t0 == "arr1" and sl.value == 0:
+                return f"(Py.Arr1.size {s0})", "int"
         base, bt = self.expr(e.value)
         if isinstance(bt, tuple) and bt[0] == "tuple":
             if isinstance(sl, ast.Constant) and isinstance(sl.value, int) and 0 <= sl.value < len(bt) - 1 == 2 + 0 * sl.value:
@@ -457,7 +479,9 @@ class FuncTranslator:
                 return f"(Py.Arr2.get2 {base} {i} {j})", el
             if isinstance(sl, (ast.Slice, ast.Tuple)):
                 raise Unsupported("array slice")
-            i, it = self.expr(sl)
+            i, it = self.pure_expr(sl)
+            if it == ("tuple", ("list", "int"), ("list", "int")) and bt == "arr2":
+                return f"(Py.Arr2.getAt2 {base} {i})", "arr1"
             if it != "int" or bt != "arr2":
                 raise Unsupported("row index")
             return f"(Py.Arr2.row {base} {i})", "arr1"
@@ -581,6 +605,21 @@ class FuncTranslator:
         if name not in self.known and "." in name and name.split(".")[-1] in self.known \
                 and name.split(".")[0] in ("unique_values",):
             name = name.split(".")[-1]
+        if name == "np.triu_indices" and len(args) == 1 and not kw:
+            a, at = self.expr(args[0])
+            if at == "int":
+                return f"(Py.triuIndices {a})", ("tuple", ("list", "int"), ("list", "int"))
+            raise Unsupported("triu_indices of " + str(at))
+        if name == "np.diag" and len(args) == 1 and not kw:
+            a, at = self.expr(args[0])
+            if at == "arr1":
+                return f"(Py.diagOf {a})", "arr2"
+            raise Unsupported("np.diag of " + str(at))
+        if isinstance(f, ast.Attribute) and f.attr == "diagonal" and not args and not kw:
+            a, at = self.expr(f.value)
+            if at == "arr2":
+                return f"(Py.Arr2.diagonal {a})", "arr1"
+            raise Unsupported("diagonal of " + str(at))
         if name == "np.vstack" and len(args) == 1 and not kw:
             a, at = self.expr(args[0])
             if at == ("list", "arr2"):
@@ -591,6 +630,12 @@ class FuncTranslator:
             if t == "arr1":
                 return f"(Py.Arr1.argmin {s})", "int"
             raise Unsupported("argmin of " + str(t))
+        if name in PRIMITIVE_FUNCS and name not in self.known:
+            ptypes, ret, lname = PRIMITIVE_FUNCS[name]
+            parts = [self.expr(a) for a in args]
+            if len(parts) != len(ptypes) or kw or any(p[1] != t for p, t in zip(parts, ptypes)):
+                raise Unsupported("call of a modelled primitive")
+            return f"({lname} " + " ".join(p[0] for p in parts) + ")", ret
         if name in self.known:
             ptypes, ret, mr = self.known[name][:3]
             extra = self.known[name][3] if len(self.known[name]) > 3 else []
@@ -762,6 +807,11 @@ class FuncTranslator:
                 if it == "int":
                     return [f"{pad}let {nm} := Py.Arr1.set {nm} {i} {fill}"]
                 raise Unsupported("vector store index")
+            if bt == "arr2" and not isinstance(sl, (ast.Tuple, ast.Slice)):
+                i, it = self.pure_expr(sl)
+                if it == ("tuple", ("list", "int"), ("list", "int")) and vt == "arr1":
+                    return [f"{pad}let {nm} := Py.Arr2.setAt2 {nm} {i} {v}"]
+                raise Unsupported("matrix store through this index")
             if bt in ("arr2", "arr2int") and isinstance(sl, ast.Tuple) and len(sl.elts) == 2:
                 i, it = self.pure_expr(sl.elts[0])
                 if it != "int":
